@@ -280,7 +280,7 @@ package parser
 //@   loopdecr [C18:term] Left(p)
 //@   termassume NoNul(p.l.input)
 //@   modifies p.curToken, p.peekToken, p.peek2Token, p.peek3Token, p.peek4Token, p.breakStack, p.continueStack, p.fonts, fields(p.l)
-//@   ensures [C18:pstate] PState(p) && PSame(p, old(p.l), old(p.l.input)) && PMaps(p, old(p.constants), old(p.inlineTextsSet), old(p.inlineTextCounts), old(p.inlineMovementsSet), old(p.inlineMovementCounts))
+//@   ensures [C12,C17,C18:pstate] PState(p) && PSame(p, old(p.l), old(p.l.input)) && PMaps(p, old(p.constants), old(p.inlineTextsSet), old(p.inlineTextCounts), old(p.inlineMovementsSet), old(p.inlineMovementCounts))
 //@   loopinv [C18:pstate-inv] PState(p) && PSame(p, old(p.l), old(p.l.input)) && PMaps(p, old(p.constants), old(p.inlineTextsSet), old(p.inlineTextCounts), old(p.inlineMovementsSet), old(p.inlineMovementCounts))
 //@ end
 
@@ -338,7 +338,7 @@ package parser
 //@   ensures [C06:slot] result3 == nil ==> (ImpOK(result2) && (result2 == nil || fresh(result2)))
 //@   modifies holes
 //@   modifies nstmt
-//@   ensures [C06:complete] result3 == nil ==> ImpSize(result2) == holes - old(holes)
+//@   ensures [C06,C11:complete] result3 == nil ==> ImpSize(result2) == holes - old(holes)
 //@   ensures [C11,C18:autovar-results] (result3 == nil && result1 != nil) ==> (result0 != nil && fresh(result1))
 //@   ensures [C11,C18:autovar-var] (result3 == nil && result1 == nil) ==> result0 == nil
 //@   ensures [C16:cmd-token] (result3 == nil && result1 != nil) ==> TokLoc(result1.Token)
@@ -801,11 +801,11 @@ package parser
 //@ func (p *Parser) parseIfStatement
 //@   include ParseFrame
 //@   loopinv [C06:slot-inv] impData != nil && fresh(impData) && ImpOK(impData)
-//@   loopinv [C06:complete-inv] ImpSize(impData) == holes - old(holes)
+//@   loopinv [C06,C11:complete-inv] ImpSize(impData) == holes - old(holes)
 //@   ensures [C06:slot] result2 == nil ==> (ImpOK(result1) && (result1 == nil || fresh(result1)))
 //@   modifies holes
 //@   modifies nstmt
-//@   ensures [C06:complete] result2 == nil ==> ImpSize(result1) == holes - old(holes)
+//@   ensures [C06,C11:complete] result2 == nil ==> ImpSize(result1) == holes - old(holes)
 //@   ensures [C20:stack-balanced] result2 == nil ==> (SameStack(p.breakStack, old(p.breakStack)) && SameStack(p.continueStack, old(p.continueStack)))
 //@   ensures [C18:located] result2 != nil ==> ErrLoc(result2)
 //@   loopinv [C20:stack-balanced-inv] SameStack(p.breakStack, old(p.breakStack)) && SameStack(p.continueStack, old(p.continueStack))
@@ -816,7 +816,7 @@ package parser
 //@   ensures [C06:slot] result2 == nil ==> (ImpOK(result1) && (result1 == nil || fresh(result1)))
 //@   modifies holes
 //@   modifies nstmt
-//@   ensures [C06:complete] result2 == nil ==> ImpSize(result1) == holes - old(holes)
+//@   ensures [C06,C11:complete] result2 == nil ==> ImpSize(result1) == holes - old(holes)
 //@   ensures [C20:stack-balanced] result2 == nil ==> (SameStack(p.breakStack, old(p.breakStack)) && SameStack(p.continueStack, old(p.continueStack)))
 //@   ensures [C18:located] result2 != nil ==> ErrLoc(result2)
 //@   loopinv [C20:stack-balanced-inv] SameStack(p.breakStack, old(p.breakStack)) && SameStack(p.continueStack, old(p.continueStack))
@@ -827,7 +827,7 @@ package parser
 //@   ensures [C06:slot] result2 == nil ==> (ImpOK(result1) && (result1 == nil || fresh(result1)))
 //@   modifies holes
 //@   modifies nstmt
-//@   ensures [C06:complete] result2 == nil ==> ImpSize(result1) == holes - old(holes)
+//@   ensures [C06,C11:complete] result2 == nil ==> ImpSize(result1) == holes - old(holes)
 //@   ensures [C20:stack-balanced] result2 == nil ==> (SameStack(p.breakStack, old(p.breakStack)) && SameStack(p.continueStack, old(p.continueStack)))
 //@   ensures [C18:located] result2 != nil ==> ErrLoc(result2)
 //@   loopinv [C20:stack-balanced-inv] SameStack(p.breakStack, old(p.breakStack)) && SameStack(p.continueStack, old(p.continueStack))
@@ -858,11 +858,11 @@ package parser
 //@   ensures [C16:operand-token] result3 == nil ==> (TokLoc(result0.Operand) && TokLoc(result0.Token))
 //@   loopinv [C18:switch-token] statement.Token == old(p.curToken)
 //@   loopinv [C06:slot-inv] resultImpData != nil && fresh(resultImpData) && ImpOK(resultImpData)
-//@   loopinv [C06:complete-inv] ImpSize(resultImpData) == holes - old(holes)
+//@   loopinv [C06,C11:complete-inv] ImpSize(resultImpData) == holes - old(holes)
 //@   ensures [C06:slot] result3 == nil ==> (ImpOK(result2) && (result2 == nil || fresh(result2)))
 //@   modifies holes
 //@   modifies nstmt
-//@   ensures [C06:complete] result3 == nil ==> ImpSize(result2) == holes - old(holes)
+//@   ensures [C06,C11:complete] result3 == nil ==> ImpSize(result2) == holes - old(holes)
 //@   ensures [C20:stack-balanced] result3 == nil ==> (SameStack(p.breakStack, old(p.breakStack)) && SameStack(p.continueStack, old(p.continueStack)))
 //@   ensures [C18:located] result3 != nil ==> ErrLoc(result3)
 // inside the statement the switch is the innermost break target: breakStack == old(breakStack) ++ [statement]
@@ -887,7 +887,7 @@ package parser
 //@   ensures [C06:slot] result2 == nil ==> (ImpOK(result1) && (result1 == nil || fresh(result1)))
 //@   modifies holes
 //@   modifies nstmt
-//@   ensures [C06:complete] result2 == nil ==> ImpSize(result1) == holes - old(holes)
+//@   ensures [C06,C11:complete] result2 == nil ==> ImpSize(result1) == holes - old(holes)
 //@   ensures [C20:stack-balanced] result2 == nil ==> (SameStack(p.breakStack, old(p.breakStack)) && SameStack(p.continueStack, old(p.continueStack)))
 //@   ensures [C18:located] result2 != nil ==> ErrLoc(result2)
 //@   loopinv [C20:stack-balanced-inv] SameStack(p.breakStack, old(p.breakStack)) && SameStack(p.continueStack, old(p.continueStack))
@@ -895,10 +895,12 @@ package parser
 
 //@ func (p *Parser) parseBooleanExpression
 //@   include ParseFrame
+// C02: negation flips the operator of the parsed leaf in place; the leaf itself (operand, value, raw-value marker, preamble) is what is returned
+//@   exit [C02:leaf-kept] (result2 == nil && single && old(p.peekToken.Type) != token.LPAREN && !(old(p.peekToken.Type) == token.NOT && old(p.peek2Token.Type) == token.LPAREN)) ==> (typeis(result0, ast.OperatorExpression) && as(result0, ast.OperatorExpression) == leaf)
 //@   ensures [C06:slot] result2 == nil ==> (ImpOK(result1) && (result1 == nil || fresh(result1)))
 //@   modifies holes
 //@   modifies nstmt
-//@   ensures [C06:complete] result2 == nil ==> ImpSize(result1) == holes - old(holes)
+//@   ensures [C06,C11:complete] result2 == nil ==> ImpSize(result1) == holes - old(holes)
 //@   ensures [C20:stack-balanced] result2 == nil ==> (SameStack(p.breakStack, old(p.breakStack)) && SameStack(p.continueStack, old(p.continueStack)))
 //@   ensures [C18:located] result2 != nil ==> ErrLoc(result2)
 //@   loopinv [C20:stack-balanced-inv] SameStack(p.breakStack, old(p.breakStack)) && SameStack(p.continueStack, old(p.continueStack))
@@ -914,7 +916,7 @@ package parser
 //@   ensures [C06:slot] result2 == nil ==> (ImpOK(result1) && (result1 == nil || fresh(result1)))
 //@   modifies holes
 //@   modifies nstmt
-//@   ensures [C06:complete] result2 == nil ==> ImpSize(result1) == holes - old(holes)
+//@   ensures [C06,C11:complete] result2 == nil ==> ImpSize(result1) == holes - old(holes)
 //@   ensures [C20:stack-balanced] result2 == nil ==> (SameStack(p.breakStack, old(p.breakStack)) && SameStack(p.continueStack, old(p.continueStack)))
 //@   ensures [C18:located] result2 != nil ==> ErrLoc(result2)
 //@   loopinv [C20:stack-balanced-inv] SameStack(p.breakStack, old(p.breakStack)) && SameStack(p.continueStack, old(p.continueStack))
@@ -935,7 +937,7 @@ package parser
 //@   ensures [C06:slot] result2 == nil ==> (ImpOK(result1) && (result1 == nil || fresh(result1)))
 //@   modifies holes
 //@   modifies nstmt
-//@   ensures [C06:complete] result2 == nil ==> ImpSize(result1) == holes - old(holes)
+//@   ensures [C06,C11:complete] result2 == nil ==> ImpSize(result1) == holes - old(holes)
 //@   ensures [C18:leaf-fresh] result2 == nil ==> (result0 != nil && fresh(result0))
 //@   ensures [C20:stack-balanced] result2 == nil ==> (SameStack(p.breakStack, old(p.breakStack)) && SameStack(p.continueStack, old(p.continueStack)))
 //@   ensures [C18:located] result2 != nil ==> ErrLoc(result2)
